@@ -69,3 +69,28 @@ Example C11_refuted_choice_model :
   map l_exn (PyM.run tpl_Note [OAdd s_pitch; ORemove 0; OAdd s_cue]) = [None; None; Some AnotherChosen]
   /\ map l_exn (PyM.run tpl_Note [OAdd s_cue]) = [None].
 Proof. vm_compute. auto. Qed.
+
+(* ---- the choice class (arrow, bend, harmonic, instrument-change, measure-style, percussion, score-instrument, swing) ---- *)
+From MX Require Import Model.ChoiceSeq Model.ChoiceClass.
+(* proved: after ANY removal both views are those of the history without the removed child (in every reachable state of every template) *)
+Theorem C11_partial_choice_views : forall s k c b, CInv (ctree s) -> nth_error (cins s) k = Some (c, b) ->
+  let s' := fst (cstep s (MRemove k)) in
+  cordered (ctree s') = filter (keep c) (cordered (ctree s)) /\ cins s' = filter (keep c) (cins s) /\ cshape (ctree s') = cshape (ctree s).
+Proof.
+  intros s k c b I E. simpl. rewrite E. simpl. destruct (cremove_ok c (ctree s) I) as (_ & Sh & O). repeat split; auto.
+Qed.
+Print Assumptions C11_partial_choice_views.
+(* refuted for the rest of the statement, on the machine and on the faithful model alike:
+   (1) an OPTIONAL choice whose leaf was removed demands a child from then on (harmonic: add natural; remove it: the final check refuses, a fresh
+       harmonic passes);
+   (2) a SEQUENCE branch that was emptied stays chosen (arrow: add arrow-direction; remove it; circular-arrow is rejected, a fresh arrow accepts it) *)
+Example C11_refuted_choice_class :
+  match slots_of tpl_Harmonic, slots_of tpl_Arrow with
+  | Some th, Some ta =>
+      cverdict_ok (cmrun th [MAdd s_natural; MRemove 0]) = false /\ cverdict_ok (cmrun th []) = true /\ cins (cmrun th [MAdd s_natural; MRemove 0]) = []
+      /\ snd (cstep (cmrun ta [MAdd s_arrow_direction; MRemove 0]) (MAdd s_circular_arrow)) <> MOk /\ snd (cstep (cmrun ta []) (MAdd s_circular_arrow)) = MOk
+  | _, _ => False end
+  /\ (let a := PyM.run tpl_Harmonic [OAdd s_natural; ORemove 0; OFinal false] in let b := PyM.run tpl_Harmonic [OFinal false] in
+      l_req (last_line a) <> Some [] /\ l_req (last_line b) = Some [])
+  /\ map l_exn (PyM.run tpl_Arrow [OAdd s_arrow_direction; ORemove 0; OAdd s_circular_arrow]) = [None; None; Some AnotherChosen].
+Proof. vm_compute. repeat split; auto; discriminate. Qed.
